@@ -131,10 +131,11 @@ def handle(module, pid, ob, twin, findings):
     if v.get("status") == "unknown" and ob.kind == "py":
         # refutation searches carry their own budget: running into the hard wall is "searched", never retried
         v = dict(v, status="searched", message="no verdict within the wall-clock budget (%s)" % v.get("message"))
-    if v.get("status") == "unknown" and not twin:
-        # one retry with a larger budget before calling it inconclusive
+    if v.get("status") == "unknown" and not twin and ob.timeout <= 1200:
+        # one retry with a larger budget before calling it inconclusive (obligations that already have a budget of
+        # more than 20 minutes are not retried: they are listed as undecided)
         rec["events"].append("retry after inconclusive (%s)" % v.get("message", ""))
-        v2 = run_symbolic(module, ob, twin, timeout=ob.timeout * 3)
+        v2 = run_symbolic(module, ob, twin, timeout=min(ob.timeout * 3, ob.timeout + 900))
         v2["paths"] = v2.get("paths", 0) + v.get("paths", 0)
         v2["solve_s"] = v2.get("solve_s", 0) + v.get("solve_s", 0)
         v = v2
